@@ -86,6 +86,26 @@ def assume(cond_expr):
         context_statespace().add(cond_expr)
 
 
+def fork(cond_expr):
+    """python bool of a z3 Bool: one solver-decided branch (both sides explored
+    when both are feasible)"""
+    with NoTracing():
+        v = SymbolicInt(z3.If(cond_expr, z3.IntVal(1), z3.IntVal(0)))
+    return v == 1
+
+
+def bytes_equal_expr(a, b):
+    """z3 Bool: two equal-length byte strings are equal"""
+    ea, eb = byte_exprs(a), byte_exprs(b)
+    assert len(ea) == len(eb)
+    with NoTracing():
+        terms = [x == y for x, y in zip(ea, eb) if not (z3.is_int_value(x) and z3.is_int_value(y) and x.as_long() == y.as_long())]
+        for x, y in zip(ea, eb):
+            if z3.is_int_value(x) and z3.is_int_value(y) and x.as_long() != y.as_long():
+                return z3.BoolVal(False)
+        return z3.And(terms) if terms else z3.BoolVal(True)
+
+
 def from_expr(e):
     with NoTracing():
         return SymbolicInt(e)
